@@ -426,6 +426,17 @@ class Ovld:
 
     def lock(self):
         self._locked = True
+        # Whatever this ovld derives from must not change either
+        for mixin in self.mixins:
+            mixin.lock()
+
+    def _lock_parents(self):
+        """Lock the ancestors whose changes would not propagate to this ovld."""
+        for mixin in self.mixins:
+            if self in mixin.children:
+                mixin._lock_parents()
+            else:
+                mixin.lock()
 
     def _attempt_modify(self):
         if self._locked:
@@ -438,6 +449,10 @@ class Ovld:
             if self.linkback:
                 mixin.children.append(self)
         self.mixins += mixins
+        if mixins:
+            # If this ovld or a linked child is already in use, rebuild it
+            # with the new methods (which also locks the new mixins)
+            self._update()
 
     def _key_error(self, key, possibilities=None):
         typenames = sigstring(key)
@@ -484,9 +499,7 @@ class Ovld:
         This will also lock this ovld's parent mixins to prevent their
         modification.
         """
-        for mixin in self.mixins:
-            if self not in mixin.children:
-                mixin.lock()
+        self._lock_parents()
 
         if self.name is None:
             self.name = self.__name__ = f"ovld{self.id}"
